@@ -4,6 +4,7 @@ CONSTANTS
   MaxWidth = 6
   Design = "real"
   TabSizes = {2, 4}
+  Extra = FALSE
 SPECIFICATION Spec
 INVARIANT InvM1
 CHECK_DEADLOCK FALSE
